@@ -207,6 +207,44 @@ def staircase_case(ctx, idx, rng):
         check_graph(ctx, nu, nv, edges, r, budget=(sc, 50 * n * n + 1000))
 
 
+def deep_case(ctx, idx, rng):
+    """DEEP graphs: augmenting paths and alternating trees of 600 .. 3000 vertices per side (far beyond the interpreter's default recursion limit of 1000
+    frames). Path with an unmatched root (the alternating tree of the cover routine is as deep as the path), ladder whose greedy first phase leaves ONE
+    augmenting path through every vertex, caterpillar; vertex ids relabelled and edge lists reordered. Optimum sizes are known in closed form, and
+    |matching| == |cover| certifies both anyway."""
+    n = int(rng.integers(600, 1500 if ctx.tier == 'quick' else 3000))
+    fam = ('path-unmatched-root', 'ladder-one-long-augmenting-path', 'caterpillar')[idx % 3]
+    if fam == 'path-unmatched-root':
+        nu, nv = n + 1, n
+        edges = [(i, i) for i in range(n)] + [(i + 1, i) for i in range(n)]
+        opt = n
+    elif fam == 'ladder-one-long-augmenting-path':
+        nu, nv = n + 1, n + 1
+        edges = []
+        for i in range(n):
+            edges += [(i, i + 1), (i, i)]          # adjacency order prefers v_{i+1}: the greedy phase matches u_i - v_{i+1} and strands u_n
+        edges.append((n, n))
+        opt = n + 1
+    else:
+        # path u_0 - v_0 - u_1 - ... plus a pendant V leaf at every third U vertex: still a tree of depth ~n
+        nu, nv = n + 1, n + (n + 3) // 3
+        edges = [(i, i) for i in range(n)] + [(i + 1, i) for i in range(n)]
+        edges += [(3 * k, n + k) for k in range((n + 3) // 3) if 3 * k <= n]
+        opt = None
+    order = ('as-built', 'reversed', 'shuffled', 'relabelled')[(idx // 3) % 4]
+    if order == 'reversed':
+        edges = edges[::-1]
+    elif order == 'shuffled':
+        edges = [edges[int(k)] for k in rng.permutation(len(edges))]
+    elif order == 'relabelled':
+        pu, pv = rng.permutation(nu), rng.permutation(nv)
+        edges = [(int(pu[u]), int(pv[v])) for u, v in edges]
+    if opt is None:
+        opt = refs.max_matching_iterative(nu, nv, edges)
+    ctx.case(('deep', fam, order, 'n<1000' if n < 1000 else 'n>=1000'), sample={'family': fam, 'n': n, 'order': order, 'nu': nu, 'nv': nv, 'edges': edges[:12]})
+    check_graph(ctx, nu, nv, edges, opt)
+
+
 def insitu_case(ctx, idx, rng):
     """minimum_vertex_cover as driven by from_opchains while compiling real Hamiltonians and random chain lists."""
     seen = [0]
@@ -297,6 +335,7 @@ SPEC = {
         Workload('duplicate-lengths', duplicate_lengths_case, quick=1500, thorough=200000),
         Workload('random', random_case, quick=600, thorough=100000),
         Workload('staircase', staircase_case, quick=400, thorough=60000),
+        Workload('deep', deep_case, quick=12, thorough=240),
         Workload('insitu', insitu_case, quick=60, thorough=6000),
         Workload('suite-soak', soak_case, quick=0, thorough=1, shardable=False),
     ],
